@@ -1,5 +1,6 @@
 // UNIT conv: the aeon -> bnet converter (src/bin/convert_aeon_to_bnet.rs) -- C19
 #![feature(allocator_api)]
+#![feature(pattern)]
 #![allow(unused_imports, dead_code, unused_variables, unused_mut, non_snake_case, unused_parens)]
 use vstd::prelude::*;
 use vstd::string::StringSliceAdditionalSpecFns;
@@ -8,6 +9,7 @@ use vstd::std_specs::hash::*;
 verus! {
 
 //@include prelude/conv_model.rs
+//@include prelude/weak_std.rs
 //@include spec/conv.rs
 //@fmtfns
 
